@@ -35,7 +35,7 @@ GEN = ["Eye"]
 MODELS = ["OptiVerif.Model.Eye", "OptiVerif.Model.NumList", "OptiVerif.Model.FiberNL", "OptiVerif.Gen.Eye"]
 RULE = ("cases = two-level NRZ waveforms (random / PRBS7 patterns of 64..256 slots, one PRBS13 record of 8191 slots (longer than the 4096-slot window), both symbols present, sps in {8,16,32}, "
         "sps_resamp=128 (a few without resampling, tie only), levels a<b with b-a log-uniform in [1e-3,100] V and offsets "
-        "{0,-d/2,-3d,+2d} plus pedestals |a|/(b-a) in {30,100,1000} of both signs, noise sigma in [0.5%,5%] of b-a, Bessel LPF at 0.7..1.0 R) each run twice: as is and scaled by "
+        "{0,-d/2,-3d,+2d} plus pedestals |a|/(b-a) in {30,100,1000} of both signs, noise sigma in [0.5%,5%] of b-a, Bessel LPF at 0.7..1.0 R) each run twice (a third of the even-length ones as ONE electrical_signal(signal, noise) object evaluated three times with the twin built from that object's arrays afterwards, operands monitored for modification): as is and scaled by "
         "alpha in [1e-3,1e3] (log-uniform) with an offset beta (up to 1000 swings, and 1e5..2e7 swings for a few), same numpy seed; degenerate inputs (constant, single level) for "
         "the error branches.  non-trivial = both runs returned finite estimates; distinct by all parameters")
 PARTIAL = ["accuracy clauses (mu within 8 % of b-a, s in [sigma/2, 2 sigma + 3 %], mu0<threshold<mu1 strictly, t_right-t_left within "
@@ -140,16 +140,28 @@ def _bits(case, r):
     return bits
 
 
-def _waveform(case, dev):
+def _waveform(case, dev, parts=False):
     from opticomlib.typing import electrical_signal
     r = np.random.default_rng(case["seed"])
     w = np.repeat(_bits(case, r), case["sps"]).astype(float)
     if case["bwf"]:
         w = dev.LPF(electrical_signal(w), BW=case["bwf"] * R_BIT).signal.real
     x = case["a"] + case["d"] * w
+    nz = r.normal(0.0, case["sigma"] * case["d"], x.size) if case["sigma"] else np.zeros(x.size)
+    if parts:
+        return np.asarray(x, dtype=float), np.asarray(nz, dtype=float)
     if case["sigma"]:
-        x = x + r.normal(0.0, case["sigma"] * case["d"], x.size)
+        x = x + nz
     return np.asarray(x, dtype=float)
+
+
+def _is_split(case):
+    """the waveform is handed over as ONE electrical_signal(signal, noise) object with a separate noise record, evaluated three
+    times, and the scaled twin is built from that object's arrays after the first evaluation (even slot count, record not
+    longer than the window: nothing has to be cut).  Chosen from the case's own seed."""
+    if "split" in case:
+        return bool(case["split"])
+    return bool(case["sigma"]) and case["nsl"] % 2 == 0 and case["nsl"] <= 4096 and case["seed"] % 3 == 0 and not case.get("tie_only")
 
 
 class _Spies:
@@ -231,19 +243,28 @@ def _fl(v):
     return v if math.isfinite(v) else ("nan" if math.isnan(v) else ("inf" if v > 0 else "-inf"))
 
 
-def _one_run(dev, x, case):
+def _snap(obj):
+    return (obj.signal.tobytes(), None if obj.noise is None else obj.noise.tobytes(), obj.signal.dtype.str, obj.signal.shape)
+
+
+def _one_run(dev, x, case, obj=None, light=False):
+    """one GET_EYE call on `obj` (default: a fresh electrical_signal(x)); `light`: keep only the returned fields"""
     from opticomlib.typing import electrical_signal
     try:
         from threadpoolctl import threadpool_limits
     except Exception:  # noqa
         from contextlib import nullcontext as threadpool_limits
-    out = {"x": [float(v) for v in x]}
+    out = {"x": [] if light else [float(v) for v in x]}
+    if obj is None:
+        obj = electrical_signal(x)
+    before = _snap(obj)
+    x_before = np.array(x, copy=True)
     np.random.seed(case["seed"] % (2 ** 32))
     with _Spies(dev) as sp:
         try:
             with threadpool_limits(limits=1):
                 with time_limit(60):
-                    e = dev.GET_EYE(electrical_signal(x), sps_resamp=case["spsr"])
+                    e = dev.GET_EYE(obj, sps_resamp=case["spsr"])
         except Timeout:
             raise
         except Exception as ex:  # noqa
@@ -251,8 +272,11 @@ def _one_run(dev, x, case):
             return out
     log = sp.log
     out["status"] = "ok"
+    out["operands_unchanged"] = bool(_snap(obj) == before and np.array_equal(x_before, x))
     out["fields"] = {k: (int(getattr(e, k)) if k == "i" else _fl(getattr(e, k, None))) for k in FIELDS}
     out["i_is_int"] = isinstance(getattr(e, "i"), (int, np.integer))
+    if light:
+        return out
     out["ny"] = int(np.size(e.y))
     out["ymax"] = float(np.max(np.abs(e.y)))
     out["y"] = [float(v) for v in np.asarray(e.y)] if out["ny"] <= MODEL_MAX_Y else []   # not shipped to the model when huge
@@ -288,10 +312,22 @@ def run_impl(case):
             warnings.simplefilter("ignore")
             gv.clean()
             gv(sps=case["sps"], R=R_BIT)
-            x = _waveform(case, dev)
-            res["len"] = int(x.size)
-            res["run1"] = _one_run(dev, x, case)
-            res["run2"] = _one_run(dev, case["alpha"] * x + case["beta"], case)
+            if _is_split(case):
+                from opticomlib.typing import electrical_signal
+                sig, nz = _waveform(case, dev, parts=True)
+                obj = electrical_signal(sig, nz)
+                x = sig + nz
+                res["len"] = int(x.size)
+                res["run1"] = _one_run(dev, x, case, obj=obj)
+                # the SAME object again, twice; then the twin from the object's own arrays as they are now
+                res["repeat"] = [_one_run(dev, x, case, obj=obj, light=True) for _ in range(2)]
+                xo = (obj.signal + obj.noise).real
+                res["run2"] = _one_run(dev, case["alpha"] * xo + case["beta"], case)
+            else:
+                x = _waveform(case, dev)
+                res["len"] = int(x.size)
+                res["run1"] = _one_run(dev, x, case)
+                res["run2"] = _one_run(dev, case["alpha"] * x + case["beta"], case)
             res["status"] = "ok"
     except Timeout as e:
         res.update(status="timeout", detail=str(e))
@@ -404,7 +440,7 @@ def compare(case, res, reqs, replies):
                 out.append(tag + f"KMeans input has {len(run['ty'])} points, model {len(pts)}")
             else:
                 for j, ((mt, my), (it_, iy)) in enumerate(zip(pts, run["ty"])):
-                    if mt != it_ or abs(my - iy) > 1e-9:
+                    if mt != it_ or not (abs(my - iy) <= 1e-9):
                         out.append(tag + f"KMeans input point {j}: model {(mt, my)!r} impl {(it_, iy)!r}")
                         break
         # everything after
@@ -423,7 +459,7 @@ def compare(case, res, reqs, replies):
         m = {}
         for nm, tok in zip(names, tk):
             m[nm] = None if tok == "none" else (int(tok) if nm == "i" else Toks(tok).f())
-        if abs(m["state1"] - sum(run["top_int"]) / 2) > 1e-12 * scale or abs(m["state0"] - sum(run["bot_int"]) / 2) > 1e-12 * scale:
+        if not (abs(m["state1"] - sum(run["top_int"]) / 2) <= 1e-12 * scale and abs(m["state0"] - sum(run["bot_int"]) / 2) <= 1e-12 * scale):
             out.append(tag + "levels state_0/state_1 differ")
         if run["top_int"] != run["sint"][0]["out"] or run["bot_int"] != run["sint"][1]["out"]:
             out.append(tag + "top_int/bot_int are not the two shortest_int results in order")
@@ -446,6 +482,14 @@ def compare(case, res, reqs, replies):
 
 
 # ------------------------------------------------------------------------------------------------ the property, stated directly
+def _same(a, b, tol):
+    if a is None or b is None:
+        return a is None and b is None
+    if isinstance(a, float) and math.isnan(a) or isinstance(b, float) and math.isnan(b):
+        return False
+    return abs(a - b) <= tol
+
+
 def oracle(case, res):
     if res.get("status") == "timeout":
         return [("C17:timeout", "GET_EYE did not return")]
@@ -473,34 +517,51 @@ def oracle(case, res):
             continue
         runs.append(f)
         A, B, D, S = sc * a + of, sc * b + of, sc * d, sc * sg_
-        if abs(f["mu0"] - A) > 0.08 * D:
+        if not (abs(f["mu0"] - A) <= 0.08 * D):
             v.append(("C17:mu0", f"{which}: mu0={f['mu0']:.6g}, level a={A:.6g}, error {abs(f['mu0'] - A) / D:.3f} of b-a {tag}"))
-        if abs(f["mu1"] - B) > 0.08 * D:
+        if not (abs(f["mu1"] - B) <= 0.08 * D):
             v.append(("C17:mu1", f"{which}: mu1={f['mu1']:.6g}, level b={B:.6g}, error {abs(f['mu1'] - B) / D:.3f} of b-a {tag}"))
         for nm in ("s0", "s1"):
             if not (S / 2 <= f[nm] <= 2 * S + 0.03 * D):
                 v.append((f"C17:{nm}", f"{which}: {nm}/(b-a)={f[nm] / D:.4f} outside [sigma/2, 2 sigma+3%], sigma={case['sigma']:.4f} {tag}"))
         if not (f["mu0"] < f["threshold"] < f["mu1"]):
             v.append(("C17:threshold", f"{which}: threshold {f['threshold']:.6g} not strictly between mu0 {f['mu0']:.6g} and mu1 {f['mu1']:.6g} {tag}"))
-        if abs(f["t_right"] - f["t_left"] - 1) > 0.1:
+        if not (abs(f["t_right"] - f["t_left"] - 1) <= 0.1):
             v.append(("C17:crossings", f"{which}: t_right-t_left = {f['t_right'] - f['t_left']:.4f} {tag}"))
-        if abs(f["t_opt"] - (f["t_left"] + f["t_right"]) / 2) > 1.0 / case["spsr"] + 1e-12:
+        if not (abs(f["t_opt"] - (f["t_left"] + f["t_right"]) / 2) <= 1.0 / case["spsr"] + 1e-12):
             v.append(("C17:t_opt", f"{which}: t_opt {f['t_opt']} not midway between {f['t_left']} and {f['t_right']} {tag}"))
         if not (run["i_is_int"] and 0 <= f["i"] < case["sps"]):
             v.append(("C17:index", f"{which}: i={f['i']} outside [0,{case['sps']}) {tag}"))
+    for which in ["run1", "run2"] + [f"repeat[{j}]" for j in range(len(res.get("repeat", [])))]:
+        run = res["repeat"][int(which[7])] if which.startswith("repeat") else res[which]
+        if run.get("status") == "ok" and not run["operands_unchanged"]:
+            v.append(("C17:input-modified", f"{which}: GET_EYE modified the electrical_signal it was given (.signal/.noise bytes differ) {tag}"))
+    if res.get("repeat") and res["run1"].get("status") == "ok":
+        f1 = {k: _num(x) for k, x in res["run1"]["fields"].items()}
+        for j, rp in enumerate(res["repeat"]):
+            if rp.get("status") != "ok":
+                v.append(("C17:raises", f"evaluation {j + 2} of the same object raised {rp.get('err')} {rp.get('detail')} {tag}"))
+                continue
+            fj = {k: _num(x) for k, x in rp["fields"].items()}
+            diff = [k for k in FIELDS if not _same(f1[k], fj[k], 1e-9 * d if k not in ("t_left", "t_right", "t_opt", "t_dist", "t_span0", "t_span1", "i") else 0.0)]
+            if diff:
+                k0 = diff[0]
+                v.append(("C17:repeat", f"evaluation {j + 2} of the SAME electrical_signal(signal, noise) object (same numpy seed) returned different "
+                                        f"estimates: {k0} {f1[k0]!r} -> {fj[k0]!r} (also {diff[1:4]}) {tag}"))
+                break
     if len(runs) == 2:
         f1, f2 = runs
         for nm in ("mu0", "mu1"):
-            if abs(f2[nm] - (al * f1[nm] + be)) > 0.01 * al * d:
+            if not (abs(f2[nm] - (al * f1[nm] + be)) <= 0.01 * al * d):
                 v.append(("C17:equivariance-level", f"{nm}: scaled run {f2[nm]:.6g} vs alpha*{nm}+beta = {al * f1[nm] + be:.6g} {tag}"))
         for nm in ("s0", "s1"):
-            if abs(f2[nm] - al * f1[nm]) > 0.01 * al * d:
+            if not (abs(f2[nm] - al * f1[nm]) <= 0.01 * al * d):
                 v.append(("C17:equivariance-spread", f"{nm}: scaled run {f2[nm]:.6g} vs alpha*{nm} = {al * f1[nm]:.6g} {tag}"))
         step = 1.0 / case["spsr"]
         for nm in ("t_left", "t_right", "t_opt"):
-            if abs(f2[nm] - f1[nm]) > step + 1e-12:
+            if not (abs(f2[nm] - f1[nm]) <= step + 1e-12):
                 v.append(("C17:equivariance-timing", f"{nm}: {f1[nm]} became {f2[nm]} after scaling {tag}"))
-        if abs(f2["i"] - f1["i"]) > (0 if f2["t_opt"] == f1["t_opt"] else 1):
+        if not (abs(f2["i"] - f1["i"]) <= (0 if f2["t_opt"] == f1["t_opt"] else 1)):
             v.append(("C17:equivariance-index", f"i: {f1['i']} became {f2['i']} after scaling {tag}"))
     return v
 
@@ -510,7 +571,7 @@ def features(case, res):
          "d<1e-2" if case["d"] < 1e-2 else "d<1" if case["d"] < 1 else "d<10" if case["d"] < 10 else "d>=10",
          "alpha<1e-1" if case["alpha"] < 0.1 else "alpha<10" if case["alpha"] < 10 else "alpha>=10",
          "offset<0" if case["a"] < 0 else "offset>=0", "pedestal>=30x" if max(abs(case["a"]), abs(case["beta"]) / case["alpha"]) >= 29.9 * case["d"] else "pedestal<30x", "sigma<2%" if case["sigma"] < 0.02 else "sigma>=2%",
-         "odd-tail" if (case["nsl"] % 2) else "even"]
+         "odd-tail" if (case["nsl"] % 2) else "even", "object(signal,noise)x3" if _is_split(case) else "fresh-object"]
     for k in ("run1", "run2"):
         r = res.get(k, {})
         if r.get("status") == "ok":
